@@ -24,6 +24,7 @@ type Closure struct {
 	Func  *FuncInfo
 	Env   *Env
 	Recv  *Val
+	Yield bool // the yield parameter of a generator body under verification
 }
 
 // State is one symbolic execution path.
@@ -146,6 +147,8 @@ type Env struct {
 	depth    int
 	oldMode  bool
 	callerSide bool
+	qvars    []string // "(name sort)" of enclosing quantifier variables
+	qnames   []string
 	visitedSet string
 }
 
@@ -225,7 +228,7 @@ func (c *Ctx) addObl(st *State, name, kind, goal, where, clause string, props []
 	if goal == "true" {
 		// still count it as discharged trivially: keep for naming stability
 	}
-	o := &Obligation{Name: c.fi.Key + "/" + name, Kind: kind, Func: c.fi.Key, Assume: append([]string(nil), st.pc...), Goal: goal,
+	o := &Obligation{Name: c.fi.Key + "/" + name, Kind: kind, Func: c.fi.Key, Assume: untag(st.pc), Goal: goal,
 		Decls: c.decls, Where: where, Clause: clause, Props: props}
 	if props == nil {
 		o.Props = c.props
@@ -405,4 +408,18 @@ func eq(a, b string) string {
 		return "true"
 	}
 	return "(= " + a + " " + b + ")"
+}
+
+// untag copies a path condition, removing trigger annotations that ended up outside a quantifier.
+func untag(pc []string) []string {
+	out := make([]string, 0, len(pc))
+	for _, p := range pc {
+		if strings.HasPrefix(p, "(! ") {
+			if i := strings.LastIndex(p, " :pattern "); i > 0 {
+				p = p[3:i]
+			}
+		}
+		out = append(out, p)
+	}
+	return out
 }
